@@ -376,6 +376,12 @@ func constructorResetsOnlyOnAbsence(c *Ctx, r *Report, rule string) {
 					continue
 				}
 				guards++
+				// polarity: the destructive call sits on the side where the error *is* the sentinel
+				if bo, isBo := ifi.Cond.(*ssa.BinOp); isBo && (bo.Op == token.EQL || bo.Op == token.NEQ) && (globalOf(bo.X) != nil || globalOf(bo.Y) != nil) {
+					if !guardedBy(cl.Block(), ifi, bo.Op == token.EQL) {
+						bad = fmt.Sprintf("%s (the re-initialisation is on the side where the error is NOT the sentinel — success included)", c.InstrPos(ifi))
+					}
+				}
 				for _, l := range condLeaves(ifi.Cond, 0) {
 					if _, isC := l.(*ssa.Const); isC {
 						continue
